@@ -13,6 +13,8 @@ trait Obj: Clone {
     fn add(&mut self, x: i64);
     fn remove(&mut self, t: i64);
     fn read(&self) -> Vec<i64>;
+    /// consuming conversion
+    fn take(self) -> Vec<i64>;
 }
 
 impl Obj for PasswordAlgorithms {
@@ -22,6 +24,7 @@ impl Obj for PasswordAlgorithms {
     }
     fn remove(&mut self, _t: i64) {}
     fn read(&self) -> Vec<i64> { self.iter().map(|a| u16::from(a.algorithm()) as i64).collect() }
+    fn take(self) -> Vec<i64> { self.into_iter().map(|a| u16::from(a.algorithm()) as i64).collect() }
 }
 
 impl Obj for UnknownAttributes {
@@ -29,6 +32,11 @@ impl Obj for UnknownAttributes {
     fn add(&mut self, x: i64) { UnknownAttributes::add(self, x as u16); }
     fn remove(&mut self, _t: i64) {}
     fn read(&self) -> Vec<i64> { self.attributes().iter().map(|a| *a as i64).collect() }
+    fn take(self) -> Vec<i64> {
+        // consuming conversion into the generic attribute and back to the list
+        let a: StunAttribute = self.into();
+        a.expect_unknown_attributes().iter().map(|x| *x as i64).collect()
+    }
 }
 
 impl Obj for StunAttributes {
@@ -53,6 +61,14 @@ impl Obj for StunAttributes {
             _ => -2,
         }).collect()
     }
+    fn take(self) -> Vec<i64> {
+        let v: Vec<StunAttribute> = self.into();
+        v.iter().map(|a| match a {
+            StunAttribute::Software(s) => 10 + s.as_str()[1..].parse::<i64>().unwrap_or(0),
+            StunAttribute::UserName(u) => 20 + u.as_str()[1..].parse::<i64>().unwrap_or(0),
+            _ => -2,
+        }).collect()
+    }
 }
 
 fn replay<T: Obj>(kind: &str, sched: &[Value], out: &mut dyn Write, n: &mut u64) {
@@ -64,7 +80,9 @@ fn replay<T: Obj>(kind: &str, sched: &[Value], out: &mut dyn Write, n: &mut u64)
         let b = (o["b"].as_u64().unwrap_or(1) as usize).saturating_sub(1);
         let x = o["x"].as_i64().unwrap_or(0);
         let opn = o["op"].as_str().unwrap_or("");
+        let mut taken: Vec<i64> = Vec::new();
         let r = catch_unwind(AssertUnwindSafe(|| match opn {
+            "take" => { if let Some(t) = objs[a].take() { taken = t.take(); } }
             "new" => objs[a] = Some(T::new()),
             "clone" => { let c = objs[a].clone(); objs[b] = c; }
             "add" => { if let Some(t) = objs[a].as_mut() { t.add(x) } }
@@ -76,7 +94,7 @@ fn replay<T: Obj>(kind: &str, sched: &[Value], out: &mut dyn Write, n: &mut u64)
             None => vec![-1],
             Some(t) => catch_unwind(AssertUnwindSafe(|| t.read())).unwrap_or(vec![-3]),
         }).collect();
-        writeln!(out, "{}", json!({"op":"vop","kind":kind,"o":o,"res":res,"vals":vals})).unwrap();
+        writeln!(out, "{}", json!({"op":"vop","kind":kind,"o":o,"res":res,"vals":vals,"taken":taken})).unwrap();
         *n += 1;
         if r.is_err() { break; }
     }
